@@ -375,6 +375,7 @@ func (p *Pipe) Send(m *mangos.Message) error {
 	d := make([]byte, 0, len(m.Header)+len(m.Body))
 	d = append(d, m.Header...)
 	d = append(d, m.Body...)
+	vsched.Tracef("vt pipe %d: mangos sent %q", p.Index, d)
 	p.sent = append(p.sent, Sent{Data: d, HLen: len(m.Header), At: vsched.Now()})
 	p.nsend++
 	m.Free()
